@@ -20,7 +20,7 @@ def run(ctx):
                     for f in sorted(glob.glob(os.path.join(ROOT, "corpus", "C12", "*.txt")))]
             if ctx.tier == "quick":
                 runs += [("faults", ["-mode", "faults"]),
-                         ("random-shadow", ["-mode", "random", "-world", "shadow", "-cases", "1500", "-len", "30"]),
+                         ("random-shadow", ["-mode", "random", "-world", "shadow", "-cases", "4000", "-len", "30"]),
                          ("rlimit", ["-mode", "rlimit"])]
             else:
                 runs += [("faults-pairs", ["-mode", "faults", "-pairs"]),
